@@ -461,8 +461,11 @@ def r2_mksetpv(ctx):
         # mask is something this rule cannot lower
         t = _first(roles, lambda t: t[1] is None or t[2] is None)
         mA, mB = next((i[3], i[4]) for i in info if i[0] is t[0])
-        known = lambda pair: any(role(pair, n) is not None for n in (major, minor)) or not any(depends_on_sym(x, n) for x in pair for n in (major, minor))
-        if not (known(mA) and known(mB)):
+        def opaque(pair, name):
+            # the mask operand (the one that is not the table words) does depend on the right argument, but in a form this rule does not know
+            ms = [x for x in pair if not depends_on_sym(x, args[0])]
+            return role(pair, name) is None and len(ms) == 1 and depends_on_sym(ms[0], name)
+        if opaque(mA, minor) or opaque(mB, major):
             ctx.error("mksetpv: the way a set argument becomes a mask is not recognised (rule knows the integer itself and mkusetmask(name))",
                       t[0].ret_node, {"regime": t[0].describe(), "membership operands": [_show(list(mA)), _show(list(mB))]})
             return
